@@ -33,6 +33,7 @@ type histRec struct {
 	Receives int      `json:"receives"`
 	Crash    string   `json:"planned_crash_inside_compaction"`
 	Restarts []string `json:"restarts"`
+	Fault    string   `json:"scan_fault,omitempty"`
 }
 
 type history struct {
